@@ -77,6 +77,9 @@ func VerifEval() {
 		return
 	}
 	verifAssert(verifIsJSON(got), "C16:result-is-json")
+	if verifHasParam("onlyerr") {
+		return
+	}
 	switch mode {
 	case 0:
 		verifAssert(specMatch(got, want), prop+":value")
